@@ -186,6 +186,8 @@ func (d *OrderedDaemon) BackgroundWorker(name string, handler WorkerFunc, order 
 		return ErrDaemonAlreadyStopped
 	}
 
+	verifHookBackgroundWorker(d, name)
+
 	d.lock.Lock()
 	defer d.lock.Unlock()
 
